@@ -122,6 +122,9 @@ def c10(run):
         return out
     cases, _ = table_flow(run, "Server", "Server.cfg", "C10", "TestServer", "ServerTrace", ["C10_"], extra_cases=extra, derive=fprune,
                           sig_fn=lambda c, f: {"kind": c.get("in", {}).get("kind"), "below_tail": c.get("in", {}).get("origin", 0) < c.get("in", {}).get("tail", 0)})
+    # a peer that drains the answer slowly, over a stream that honours deadlines (mocknet's do not): the handler is done
+    # within RequestTimeout + WriteDeadline however many responses the answer has
+    judge(run, [{"id": 0, "from_tlc": False}], "TestServerDeadline", "ServerDeadlineTrace", ["C10_"], shards=1)
     for c in cases[:2] + cases[200:202]:
         run.sample({"in": c["in"], "predicted": c["predicted"]})
     run.cov["exhaustive"] = True
